@@ -20,6 +20,7 @@ pub fn check(tier: Tier) -> Check {
     // a Maximum Packet Size so small that the client can send no request at all (2 / 3 bytes): every
     // inbound QoS>0 PUBLISH and PUBREL is acknowledged all the same (the limit binds requests, C12)
     parts.push(Part::new("C08/reconnect", json!({}), 0, 60));
+    parts.push(Part::new("C08/acks", json!({"depth": tier.pick(3, 4), "pids": [1, 2, 65535], "flavour": 9}), 0, tier.pick(40, 300)));
     parts.push(Part::new("C08/tiny", json!({"depth": tier.pick(3, 4)}), 0, tier.pick(40, 300)));
     Check {
         also_rel: false,
